@@ -286,6 +286,14 @@ package model
 //@   loop 1 invariant [values] forall q string :: q in scaledCriterionValues ==> exists k int :: 0 <= k && k < iter && (*alternatives)[k].Id == q
 //@             && scaledCriterionValues[q] == rescaled(*c, (*alternatives)[k].Criteria[c.Id], *currentRange, scale, *target)
 
+// fractionOf(x, w): x = u*w for some u in [0,1)  (stated without the existential)
+//@ pred fractionOf(x real, w real) = (w > 0.0 ==> 0.0 <= x && x < w) && (w < 0.0 ==> w < x && x <= 0.0) && (w == 0.0 ==> x == 0.0)
+
+//@ func NewCriterionValue
+//@   property C18
+//@   fnparam generator ensures 0.0 <= result && result < 1.0
+//@   ensures [fraction_of_reference] fractionOf(result, (*previousWeights)[baseCriterion.Id])
+
 // ---- adding a criterion to alternatives
 
 //@ pred extendedBy(nw AlternativeWithCriteria, od AlternativeWithCriteria, name string) =
